@@ -12,9 +12,9 @@ example : Generated.semaphoreCap = "g.maxParallel" := by decide
 literal under `go`, or a function a `go` statement calls) — and exactly these statuses are written -/
 example : Generated.statusWrites = ["scheduler: runDone", "scheduler: runInProgress", "scheduler: runSkip"] := by decide
 /-- some goroutine of the package (the task goroutine) acquires a semaphore slot first and releases it in a
-deferred call -/
+deferred call (written in place, or through functions whose first statement is the send resp. the receive) -/
 example : (Generated.goroutineHeads.any fun h =>
-    GoModel.hasPrefix (GoModel.b h) (GoModel.b "send semaphore; defer func{...}")) = true := by decide
+    GoModel.hasPrefix (GoModel.b h) (GoModel.b "send semaphore; defer recv semaphore")) = true := by decide
 /-- the task goroutine holds the Task's mutex from before its first attempt until it returns
 (`x.Lock(); defer x.Unlock()` ahead of the attempt loop): the ground of `holdsLock` in `Lemmas/SharedTask.lean` -/
 example : Generated.taskLockBeforeAttempts = true := by decide
